@@ -223,9 +223,14 @@ def parse_subdef(text):
 # EmitC events
 
 
+ENUM_CONST = re.compile(r"^(HEX_REG_FIELD_|HEX_REG_CLASS_|HEX_REG_ALIAS_|HEX_RF_|RZ_FLOAT_)[A-Z0-9_]+$")
+
+
 def _uses(e, out, mode="raw"):
     t = e["t"]
     if t == "id":
+        if ENUM_CONST.match(e["n"]):
+            return  # enumeration constant of the plugin, not a variable
         out.append((e["n"], mode))
     elif t == "addr":
         out.append((e["n"], "addr"))
@@ -408,6 +413,9 @@ class TermBuilder:
             return {"op": "WRITE_REG", "reg": rd, "ctx": a[0].get("n"), "ord": self.next_ord(), "args": [v]}
         if f == "HEX_STORE_SLOT_CANCELLED":
             return {"op": "SLOT_CANCEL", "args": []}
+        if f == "HEX_GET_NPC":
+            # plugin function returning the effect SETL("ret_val", <address of the next packet>)
+            return {"op": "GET_NPC", "args": []}
         if f.startswith("hex_"):
             args = [self.term(x) for x in a]
             return {"op": "CALL", "name": f[4:], "ord": self.next_ord(), "args": args}
